@@ -126,6 +126,13 @@ def case(ctx, idx, res):
         xsl, what = failing_stylesheet(r)
         sheets.append(('fail', xsl, what))
     sheets.append(('ok', (HEAD % '') + LAZY_OK + '</xsl:stylesheet>', 'every lazily built facility'))
+    # sorts by language: the transformer keeps one collator per language for its whole life; what one sort sets on it (case-order) must not
+    # show in a later sort with the same language, in this or a later transformation.  The keys differ in case only.
+    lang = r.choice(['fr', 'en', 'de', 'sv', 'nl', 'en-US', 'it'])
+    for co in r.sample([None, 'upper-first', 'lower-first', None], r.choice([2, 3])):
+        key = "substring('aAbBcCAa', count(preceding::*) mod 8 + 1, 1)"
+        sheets.append(('ok', (HEAD % '') + '<xsl:output method="text"/><xsl:template match="/"><xsl:for-each select="//*"><xsl:sort select="%s" lang="%s"%s/><xsl:value-of select="concat(%s, count(preceding::*), \' \')"/>'
+                       '</xsl:for-each></xsl:template></xsl:stylesheet>' % (key, lang, ' case-order="%s"' % co if co else '', key), 'sort lang=%s case-order=%s' % (lang, co)))
     if r.random() < 0.3:
         sheets.append(('fail', (HEAD % '') + '<xsl:output encoding="US-ASCII"/><xsl:template match="/"><out><w/><xsl:comment>caf&#233;</xsl:comment></out></xsl:template></xsl:stylesheet>', 'unserializable character in a comment'))
     if r.random() < 0.3:
